@@ -1,5 +1,5 @@
 """which deductive kernel jobs carry which property"""
-from . import kernel_edit, kernel_split
+from . import kernel_edit, kernel_functions, kernel_split
 
 # (module, predicate on obligation clause) : a kernel job is run once per property that lists it; evidence counts every
 # obligation of that job under the property (the clause letters G/L/E/T/C/F/O say which property each one carries)
@@ -8,7 +8,8 @@ KERNELS = {
     "C02": [kernel_split],
     "C03": [kernel_split],
     "C04": [kernel_edit, kernel_split],
-    "C06": [kernel_split],
+    "C05": [kernel_functions],
+    "C06": [kernel_split, kernel_functions],
     "C08": [kernel_split],
 }
 
